@@ -11,8 +11,10 @@ correspondence: E-CONC L1 — harness/c03.cpp runs the real ConcurrentFixedSwiss
                 the end of the ring so the mirrored bytes are read; placeholder heads; growth through 1-3
                 chained tables); every atomic-level trace (16 relaxed byte loads per group, fences, slot
                 CAS, release stores, sched_yield, next-pointer loads / CAS) is replayed in lock-step by
-                lean/Drivers/C03.lean; the value cells are vrt_payload ranges (HB race monitor = "fully
-                constructed before visible"); the harness evaluates the property's oracle itself.  An
+                lean/Drivers/C03.lean; the value cells AND the headers of chained TableNodes (table pointers,
+                bucket mask) are vrt_payload ranges (HB race monitor = "fully constructed before visible",
+                "a new table is published to the loser of the growth race"); the harness evaluates the
+                property's oracle itself.  An
                 additional oracle-only pass runs the same programs under VRT_MEM=view (release/acquire
                 view model: loads of control bytes / next pointers may be stale), where the
                 find-after-insert oracle binds only calls that happen-after the returned insertion.
@@ -139,7 +141,10 @@ def run(ctx):
                 ctx.failing_input("oracle:%s:%s" % (mode, kind), text)
             elif r["races"]:
                 dist["races"] += 1
-                ctx.failing_input("race:%s:value-cell-not-published" % mode, text)
+                what = r["races"][0].split()
+                name = what[3] if len(what) > 3 else "?"
+                kind = "table-node-not-published" if name.startswith("node") else "value-cell-not-published"
+                ctx.failing_input("race:%s:%s" % (mode, kind), text)
             elif r["verdict"] == "step-limit" and env.get("VRT_STRATEGY") == "pct" and _mirror_spin(r["lines"]):
                 # liveness artefact of the strict-priority (PCT) scheduler, not a C03 (safety) violation:
                 # a prober that reads a slot through its *mirrored* byte while the inserter is between its
